@@ -66,6 +66,29 @@ Proof.
     destruct H as [[->|H]|H]; auto.
 Qed.
 
+(* a cache that can hold every label never drops one *)
+Lemma access_all_small_In coh k labels ls : NoDup labels -> incl ls labels -> Z.of_nat (length labels) <= k ->
+  forall c c', NoDup c -> incl c labels -> s_access_all coh (Some k) c ls = (true, c') ->
+  forall l, In l ls \/ In l c -> In l c'.
+Proof.
+  intros Nl. revert ls. induction ls as [|x r IH]; intros Il K c c' Nc Ic E l H; cbn [BusSpec.s_access_all] in E.
+  - injection E as <-. destruct H as [[]|H]; exact H.
+  - destruct (mem x c || coh); [|discriminate].
+    assert (Ix : In x labels) by (apply Il; left; reflexivity).
+    assert (Etouch : s_touch (Some k) x c = la_touch x c).
+    { unfold BusSpec.s_touch, s_trim.
+      assert (length (la_touch x c) <= length labels)%nat.
+      { apply NoDup_incl_length; [apply (la_touch_NoDup L leqb leqb_spec), Nc|].
+        intros y Hy. apply (la_touch_In L leqb leqb_spec) in Hy as [->|Hy]; [exact Ix | apply Ic, Hy]. }
+      destruct (Z.of_nat (length (la_touch x c)) >? k) eqn:G; [lia | reflexivity]. }
+    rewrite Etouch in E.
+    apply (IH (fun y Hy => Il y (or_intror Hy)) K (la_touch x c) c').
+    + apply (la_touch_NoDup L leqb leqb_spec), Nc.
+    + intros y Hy. apply (la_touch_In L leqb leqb_spec) in Hy as [->|Hy]; [exact Ix | apply Ic, Hy].
+    + exact E.
+    + rewrite (la_touch_In L leqb leqb_spec). destruct H as [[->|H]|H]; auto.
+Qed.
+
 (* for i, label in enumerate(index): self._extract_iloc(i) *)
 Lemma each_sim st : store_ok st -> forall ps m s acc log,
   Rel st m s -> Forall (fun p => (p < length (mb_labels L F m))%nat) ps ->
